@@ -180,6 +180,15 @@ func Monitors(h History, tr *Trace) []Failure {
 		}
 		if s.QPendingN != len(s.Pending) {
 			add("C18", "C18/pending-query-length", height, "query %d, store %d", s.QPendingN, len(s.Pending))
+		} else {
+			for i, p := range s.Pending {
+				want := fmt.Sprintf("%d|%d|%s|%s|%s|%s|%s|%s", p.Oper, p.Cons, p.Tokens, p.MSD, p.Rate, p.MaxRate, p.MaxChg, p.Desc)
+				if i < len(s.QPending) && s.QPending[i] != want {
+					add("C18", "C18/pending-query-entry-differs-from-stored-application", height, "index %d: query %q, store %q", i, s.QPending[i], want)
+					add("C10", "C10/pending-query-entry-differs-from-stored-application", height, "index %d: query %q, store %q", i, s.QPending[i], want)
+					break
+				}
+			}
 		}
 		if s.QAuthority != fmt.Sprint(adminID) {
 			add("C18", "C18/authority-query", height, "got %s", s.QAuthority)
@@ -728,13 +737,21 @@ func Monitors(h History, tr *Trace) []Failure {
 			case "create":
 				for _, m := range bt.Spec.Txs[op.Tx].Msgs {
 					if m.Kind == "create" && m.Val == op.Val {
-						pendingSpec = append(pendingSpec, PendSnap{Oper: m.Val, Cons: m.Cons, Tokens: "0", MSD: "1", Rate: optStr(m.Rate), MaxRate: optStr(m.MaxRate), MaxChg: optStr(m.MaxChg)})
+						d := descOf(m)
+						pendingSpec = append(pendingSpec, PendSnap{Oper: m.Val, Cons: m.Cons, Tokens: "0", MSD: "1", Rate: optStr(m.Rate), MaxRate: optStr(m.MaxRate), MaxChg: optStr(m.MaxChg),
+							Desc: descKey(d.Moniker, d.Identity, d.Website, d.SecurityContact, d.Details)})
 						break
 					}
 				}
 			case "setpower", "removepending":
 				for i, p := range pendingSpec {
 					if p.Oper == op.Val {
+						// admission moves exactly that application into the validator set: same consensus key, description and rates
+						if v, ok := s.Vals[op.Val]; ok && op.Kind == "setpower" && p.Desc != "" {
+							if v.Cons != p.Cons || v.Desc != p.Desc || v.MaxRate != p.MaxRate || v.MaxChg != p.MaxChg {
+								add("C10", "C10/admitted-validator-differs-from-application", ht, "operator %d: application %+v validator %+v", op.Val, p, *v)
+							}
+						}
 						pendingSpec = append(append([]PendSnap(nil), pendingSpec[:i]...), pendingSpec[i+1:]...)
 						break
 					}
@@ -747,7 +764,7 @@ func Monitors(h History, tr *Trace) []Failure {
 		} else {
 			for i := range pendingSpec {
 				a, b := pendingSpec[i], s.Pending[i]
-				if a.Oper != b.Oper || a.Cons != b.Cons || a.Rate != b.Rate || a.MaxRate != b.MaxRate || a.MaxChg != b.MaxChg {
+				if a.Oper != b.Oper || a.Cons != b.Cons || a.Rate != b.Rate || a.MaxRate != b.MaxRate || a.MaxChg != b.MaxChg || (a.Desc != "" && a.Desc != b.Desc) {
 					add("C10", "C10/pending-entry-differs-from-application", ht, "index %d: expected %+v got %+v", i, a, b)
 					pendingSpec = append([]PendSnap(nil), s.Pending...)
 					break
